@@ -79,14 +79,25 @@ pub fn build_world(scn: &Scenario, built: &Built, layout: &Layout, faults: &[Dis
     // xor.dat is created before the blk files in half of the worlds, after them in the other half
     let xor_first = scn.index.order_seed & 2 == 0;
     if !key.is_empty() && xor_first {
-        fs::write(dir.join("xor.dat"), &key).map_err(e)?;
+        if layout.xor_symlink {
+            let side = dir.parent().unwrap_or(dir).join(format!("{}-moved", dir.file_name().and_then(|n| n.to_str()).unwrap_or("data")));
+            fs::create_dir_all(&side).map_err(e)?;
+            fs::write(side.join("xor.dat"), &key).map_err(e)?;
+            let _ = fs::remove_file(dir.join("xor.dat"));
+            std::os::unix::fs::symlink(side.join("xor.dat"), dir.join("xor.dat")).map_err(e)?;
+        } else {
+            fs::write(dir.join("xor.dat"), &key).map_err(e)?;
+        }
     }
     // directory iteration order depends on creation order on some file systems:
     // half of the extra entries are created before the blk files, half after
     for (k, x) in layout.extra_files.iter().enumerate() {
         if k % 2 == 0 {
             let p = dir.join(&x.name);
-            if x.is_dir {
+            if let Some(t) = &x.symlink_to {
+                let _ = fs::remove_file(&p);
+                std::os::unix::fs::symlink(t, &p).map_err(e)?;
+            } else if x.is_dir {
                 fs::create_dir_all(&p).map_err(e)?;
             } else {
                 fs::write(&p, &x.bytes.0).map_err(|z| format!("world: extra file {}: {}", p.display(), z))?;
@@ -179,14 +190,25 @@ pub fn build_world(scn: &Scenario, built: &Built, layout: &Layout, faults: &[Dis
         info.file_sizes.insert(f.number, off);
     }
     if !key.is_empty() && !xor_first {
-        fs::write(dir.join("xor.dat"), &key).map_err(e)?;
+        if layout.xor_symlink {
+            let side = dir.parent().unwrap_or(dir).join(format!("{}-moved", dir.file_name().and_then(|n| n.to_str()).unwrap_or("data")));
+            fs::create_dir_all(&side).map_err(e)?;
+            fs::write(side.join("xor.dat"), &key).map_err(e)?;
+            let _ = fs::remove_file(dir.join("xor.dat"));
+            std::os::unix::fs::symlink(side.join("xor.dat"), dir.join("xor.dat")).map_err(e)?;
+        } else {
+            fs::write(dir.join("xor.dat"), &key).map_err(e)?;
+        }
     }
     for (k, x) in layout.extra_files.iter().enumerate() {
         if k % 2 == 0 {
             continue;
         }
         let p = dir.join(&x.name);
-        if x.is_dir {
+        if let Some(t) = &x.symlink_to {
+            let _ = fs::remove_file(&p);
+            std::os::unix::fs::symlink(t, &p).map_err(e)?;
+        } else if x.is_dir {
             fs::create_dir_all(&p).map_err(e)?;
         } else {
             fs::write(&p, &x.bytes.0).map_err(e)?;
@@ -252,7 +274,13 @@ pub fn build_world(scn: &Scenario, built: &Built, layout: &Layout, faults: &[Dis
         }
         // block 0 has no undo data in Bitcoin Core's index
         let st = if h == 0 { 5 | 8 } else { STATUS_ACTIVE & !(scn.index.active_clear_status & !8) } | scn.index.active_extra_status;
-        records.push(mk(&bb.hash, h, st, ntx(scn.index.ntx_mode, scn.chain[i].txs.len() as u64, &bb.hash), place, &bb.bytes));
+        let mut key_hash = bb.hash;
+        if let Some((_, o)) = scn.index.key_overrides.iter().find(|(hh, _)| *hh == h) {
+            if o.0.len() == 32 {
+                key_hash.copy_from_slice(&o.0);
+            }
+        }
+        records.push(mk(&key_hash, h, st, ntx(scn.index.ntx_mode, scn.chain[i].txs.len() as u64, &bb.hash), place, &bb.bytes));
     }
     for (i, x) in scn.extras.iter().enumerate() {
         if let Some(ix) = &x.index {
@@ -263,6 +291,50 @@ pub fn build_world(scn: &Scenario, built: &Built, layout: &Layout, faults: &[Dis
     }
     for (k, v) in &scn.index.extra_keys {
         records.push((k.0.clone(), v.0.clone()));
+    }
+    if scn.index.file_info {
+        // CBlockFileInfo: nBlocks, nSize, nUndoSize, nHeightFirst, nHeightLast, nTimeFirst, nTimeLast (VarInts)
+        let mut per: std::collections::BTreeMap<u64, (u64, u64, u64, u64, u64, u64)> = Default::default();
+        let mut add = |file: u64, end: u64, height: u64, time: u64| {
+            let e = per.entry(file).or_insert((0, 0, u64::MAX, 0, u64::MAX, 0));
+            e.0 += 1;
+            e.1 = e.1.max(end);
+            e.2 = e.2.min(height);
+            e.3 = e.3.max(height);
+            e.4 = e.4.min(time);
+            e.5 = e.5.max(time);
+        };
+        for (i, p) in info.active.iter().enumerate() {
+            if let Some(p) = p {
+                add(p.file, p.pos + p.len, scn.base_height + i as u64, scn.chain[i].time as u64);
+            }
+        }
+        for (i, p) in info.extras.iter().enumerate() {
+            if let (Some(p), Some(ix)) = (p, scn.extras[i].index.as_ref()) {
+                add(p.file, p.pos + p.len, ix.height, scn.extras[i].block.time as u64);
+            }
+        }
+        let mut last_file = 0u64;
+        for (file, (n, size, hf, hl, tf, tl)) in &per {
+            // Core keys file records by a 4-byte file number; larger numbers have no such record
+            if *file > u32::MAX as u64 {
+                continue;
+            }
+            last_file = last_file.max(*file);
+            let mut k = vec![b'f'];
+            k.extend_from_slice(&(*file as u32).to_le_bytes());
+            let mut v = Vec::new();
+            for x in [*n, *size, n * 40, *hf, *hl, *tf, *tl] {
+                v.extend(core_varint(x));
+            }
+            if !records.iter().any(|(kk, _)| *kk == k) {
+                records.push((k, v));
+            }
+        }
+        let lk = vec![b'l'];
+        if !records.iter().any(|(kk, _)| *kk == lk) {
+            records.push((lk, (last_file as u32).to_le_bytes().to_vec()));
+        }
     }
     let mut rng = Rng::new(scn.index.order_seed ^ 0x51ab);
     if scn.index.order_seed != 0 {
